@@ -49,14 +49,26 @@ RBin(op, x, y) ==
 (* may fall on either side, so that single point is a don't-care:          *)
 (* CmpTolSet returns the set of admissible answers.                        *)
 (***************************************************************************)
+\* Operands are kept inside 15 bits per component so that every cross
+\* multiplication below stays inside TLC's 32-bit integers (TLC aborts on
+\* overflow).  A value outside the bound (or the marker <<0, 0>> the harness
+\* writes for a float it cannot render as a small rational) is "too big": the
+\* semantics treats a computation on it as undetermined rather than guessing.
+Limit == 16384
+TooBig(x) == x[2] = 0 \/ Abs(x[1]) > Limit \/ x[2] > Limit
+
 \* |x - y| <= eps.  The short cut for differences of one or more keeps the
 \* cross multiplication inside 32 bits (eps is far below one).
 Within(x, y, eps) ==
   LET d == RAbs(RSub(x, y))
-  IN  IF d[1] >= d[2] /\ eps[1] < eps[2] THEN FALSE ELSE RLe(d, eps)
+  IN  IF d[1] >= d[2] /\ eps[1] < eps[2] THEN FALSE
+      ELSE IF d[1] > 200000 THEN FALSE          \* d[1] * eps[2] would exceed any d[2]
+      ELSE RLe(d, eps)
 ExactlyAt(x, y, eps) ==
   LET d == RAbs(RSub(x, y))
-  IN  IF d[1] >= d[2] /\ eps[1] < eps[2] THEN FALSE ELSE REq(d, eps)
+  IN  IF d[1] >= d[2] /\ eps[1] < eps[2] THEN FALSE
+      ELSE IF d[1] > 200000 THEN FALSE
+      ELSE REq(d, eps)
 
 CmpTol(op, x, y, eps) ==
   CASE op = "="  -> Within(x, y, eps)
